@@ -127,6 +127,11 @@ type Node struct {
 	Dflt   *D
 	Catch  *D
 	Layout string
+	// Coercer: named custom coercer installed with z.WithCoercer (prim: plus100 strlen sfx yn; slice: csv);
+	// CoercerViaPtr: the option is applied to the enclosing Ptr schema (which passes it through) instead
+	// of the primitive's constructor — the same schema either way
+	Coercer       string
+	CoercerViaPtr bool
 
 	SliceDfltIn *V
 	SliceDfltD  *D
@@ -210,6 +215,9 @@ func (n *Node) Sx(ext *Ext) *sx.Node {
 		if n.Layout != "" {
 			mods = append(mods, sx.T("layout", sx.S(n.Layout)))
 		}
+		if n.Coercer != "" {
+			mods = append(mods, sx.T("coercer", sx.A(n.Coercer)))
+		}
 		return sx.T("prim", sx.A(n.PK), sx.T("mods", mods...), testsSx(n.Tests, ext), postsSx(n.Posts))
 	case "slice":
 		mods := []*sx.Node{}
@@ -218,6 +226,9 @@ func (n *Node) Sx(ext *Ext) *sx.Node {
 		}
 		if n.SliceDfltIn != nil {
 			mods = append(mods, sx.T("dflt", n.SliceDfltIn.Sx(), n.SliceDfltD.Sx()))
+		}
+		if n.Coercer != "" {
+			mods = append(mods, sx.T("coercer", sx.A(n.Coercer)))
 		}
 		return sx.T("slice", n.Elem.Sx(ext), ZeroD(n.Elem).Sx(), sx.T("mods", mods...), testsSx(n.Tests, ext), postsSx(n.Posts))
 	case "ptr":
